@@ -187,10 +187,12 @@ func (w *baWorld) exec(line string) string {
 			w.r.Count("branch:l1-bridge-block-faulted-then-retried")
 		}
 		if err := w.l1b.ProcessBlock(ctx, bb); err != nil {
-			panic(fmt.Sprintf("harness: L1 bridge block rejected: %v (%s)", err, line))
+			w.fail(fmt.Sprintf("[C12,C01] the L1 bridge syncer rejected a well-formed block (%s): %v — no exit root, hence no claim proof, for its deposits", line, err))
+			panic(stopRun{})
 		}
 		if err := w.l1i.ProcessBlock(ctx, ib); err != nil {
-			panic(fmt.Sprintf("harness: L1 info block rejected: %v (%s)", err, line))
+			w.fail(fmt.Sprintf("[C12,C11] the L1 info syncer rejected a well-formed block (%s): %v — no L1 info leaf, hence no claim proof, for its updates", line, err))
+			panic(stopRun{})
 		}
 		return "ok"
 	case "l2blk": // l2blk <num> b:<seed>*
